@@ -60,6 +60,14 @@ class QCow2(AlignedStream):
         if self.header.version < 2 or self.header.version > 3:
             raise InvalidHeaderError(f"Unsupported qcow2 version: {self.header.version}")
 
+        if self.header.version == 2:
+            # The version 3 fields do not exist in a version 2 header (extensions or other data may follow directly)
+            self.header.incompatible_features = 0
+            self.header.compatible_features = 0
+            self.header.autoclear_features = 0
+            self.header.refcount_order = 4
+            self.header.header_length = 72
+
         if self.header.cluster_bits < c_qcow2.MIN_CLUSTER_BITS or self.header.cluster_bits > c_qcow2.MAX_CLUSTER_BITS:
             raise InvalidHeaderError(f"Unsupported cluster size: 2**{self.header.cluster_bits}")
 
